@@ -108,7 +108,7 @@ BUILTIN_EXC = {
 
 
 class Exec:
-    def __init__(self, index: RepoIndex, reg: Registry, quick_timeout_ms=2000):
+    def __init__(self, index: RepoIndex, reg: Registry, quick_timeout_ms=700):
         self.ix = index
         self.reg = reg
         self.obls: list[Obl] = []
@@ -851,6 +851,26 @@ class Exec:
             for k, srt in zip(self.heap_keys(decl, fname, t), t.comps()):
                 st.heap[k] = z3.Const(ty.fresh_name(f"H:{k}"), z3.ArraySort(ty.RefSort, srt))
 
+    def havoc_loop_heap(self, st, mods):
+        """modifies entries of a loop: "Class.field" (all receivers), ("Class.field", fn(view) -> [receivers]), "warnings", "alloc"."""
+        from .views import unwrap
+        pre = self.view(st)
+        for m in mods:
+            fld, who = (m if isinstance(m, tuple) else (m, None))
+            if fld in ("warnings", "alloc"):
+                continue
+            if who is None:
+                self.havoc_heap(st, [fld])
+                continue
+            cls, fname = fld.split(".", 1)
+            decl, t = self.field_info(cls, fname)
+            refs = [unwrap(x) for x in who(pre)]
+            for k, srt in zip(self.heap_keys(decl, fname, t), t.comps()):
+                a = self.heap_arr(st, k, srt)
+                for r in refs:
+                    a = z3.Store(a, r.ref, z3.Const(ty.fresh_name(f"hv:{k}"), srt))
+                st.heap[k] = a
+
     def cut_loop(self, s, st, spec: LoopSpec, kind, iter_seq=None, target=None):
         """Invariant-cut loop.  For `for` loops over a symbolic sequence, a ghost index `spec.index`
         (default '_k') counts completed iterations; target = seq[_k]."""
@@ -859,6 +879,10 @@ class Exec:
         res = []
         if kind == "for":
             st.assign(kname, 0)
+        for ln, lt_ in spec.locals.items():
+            found, cur = st.lookup(ln)
+            if found:
+                st.assign(ln, self.coerce(lt_, self.to_storable(cur), s))
         # 1. invariant holds on entry
         for tag, g in self.eval_clauses(spec.invariant, self.view(st)):
             self.oblige(st, f"{label}/inv-entry/{tag}", g, s)
@@ -876,13 +900,13 @@ class Exec:
             if t is None:
                 raise Unsupported(f"cannot havoc loop-modified local {n}={cur!r}", s)
             h.assign(n, ty.fresh(t, n))
-        self.havoc_heap(h, spec.modifies)
-        if spec.modifies:
+        self.havoc_loop_heap(h, spec.modifies)
+        if "alloc" in spec.modifies:
             h.alloc = z3.Const(ty.fresh_name("alloc"), z3.ArraySort(ty.RefSort, z3.BoolSort()))
             # allocation only grows
             r = z3.Const(ty.fresh_name("r"), ty.RefSort)
             h.assume(z3.ForAll([r], z3.Implies(z3.Select(st.alloc, r), z3.Select(h.alloc, r))))
-        if isinstance(h.warn_count, int) or True:
+        if "warnings" in spec.modifies:
             wc = z3.Int(ty.fresh_name("warns"))
             h.assume(wc >= ty.to_z3num(st.warn_count))
             h.warn_count = wc
@@ -914,10 +938,14 @@ class Exec:
                     self.assume_wf(st2, iter_seq.elem, iter_seq.at(k))
                 if spec.decreases is not None:
                     dec0 = spec.decreases(self.view(st2))
+                head_st = st2.fork()
                 for o2 in self.exec_block(s.body, st2):
                     if o2.kind in ("next", "continue"):
                         if kind == "for":
                             o2.st.assign(kname, o2.st.lookup(kname)[1] + 1)
+                        if spec.step is not None:
+                            for tag, g in self.eval_clauses(spec.step, self.view(head_st), self.view(o2.st)):
+                                self.oblige_clause(o2.st, f"{label}/step/{tag}", g, s)
                         for tag, g in self.eval_clauses(spec.invariant, self.view(o2.st)):
                             self.oblige(o2.st, f"{label}/inv-preserved/{tag}", g, s)
                         if spec.decreases is not None:
@@ -1278,6 +1306,9 @@ class Exec:
             found, selfv = st.lookup(st.frame.fi.node.args.args[0].arg)
             cls_ctx = st.frame.env.get("__class__")
             return [Out("val", SuperV(cls_ctx, selfv), st)]
+        if isinstance(e.func, ast.Attribute) and e.func.attr in ("heappush", "heappop") and isinstance(e.func.value, ast.Name) \
+                and e.func.value.id == "heapq" and e.args:
+            return self.call_heapq(e, st)
         if isinstance(e.func, ast.Attribute) and e.func.attr in self.lib.MUTATORS:
             r = self.call_mutator(e, st)
             if r is not None:
@@ -1306,6 +1337,27 @@ class Exec:
                     else:
                         kwargs[k.arg] = v
                 res.extend(self.call_value(fv, args, kwargs, s, e))
+        return res
+
+    def call_heapq(self, e, st):
+        """heapq.heappush(<place>, item) / heapq.heappop(<place>): value-semantic update of the place."""
+        from . import heaplib
+        res = []
+        acc, raises = self.eval_many(list(e.args), st)
+        res.extend(raises)
+        for vals, s in acc:
+            h = vals[0]
+            if e.func.attr == "heappush":
+                new = heaplib.heappush(self, s, h, vals[1], e)
+                for o3 in self.assign_target(self.as_store(e.args[0]), new, s):
+                    res.append(Out("val", None, o3.st) if o3.kind == "next" else o3)
+            else:
+                for (new, retv, s2, exc) in heaplib.heappop(self, s, h, e):
+                    if exc is not None:
+                        res.append(Out("raise", exc, s2))
+                        continue
+                    for o3 in self.assign_target(self.as_store(e.args[0]), new, s2):
+                        res.append(Out("val", retv, o3.st) if o3.kind == "next" else o3)
         return res
 
     def call_mutator(self, e, st):
@@ -1451,6 +1503,9 @@ class Exec:
                 out[n] = v
             else:
                 vv = self.to_storable(v)
+                if isinstance(vv, ty.OptV) and not isinstance(t, ty.OptT):
+                    self.safety(self._cur_call_state, f"none-passed-as-{n}", z3.Not(vv.isnone), node)
+                    vv = vv.val
                 if isinstance(t, ty.RefT) and isinstance(vv, ty.ObjV):
                     # keep the (possibly more precise) class of the actual
                     if not (self.reg.is_subclass(vv.cls, t.cls) or self.ix.is_subclass(vv.cls, t.cls)):
@@ -1465,6 +1520,7 @@ class Exec:
         if c.assumed:
             self.assumed_used.add(c.qualname)
         bound = self.bind_args(fi, args, kwargs, st, node)
+        self._cur_call_state = st
         targs = self.typed_args(c, fi, bound, node)
         name = fi.qualname.split("acnportal.")[-1]
         pre = self.view(st, targs)
@@ -1610,6 +1666,9 @@ class Exec:
         for cl in c.requires:
             for tag, g in self.eval_clauses(cl.fn, pre):
                 st.assume(g)
+        ge = c.extra.get("ghost_entry")
+        if ge:
+            st.ghost.update(ge(self, st, pre))
         # vacuity: the precondition must be satisfiable
         self.oblige(st, "requires/satisfiable", z3.BoolVal(False), fi.node, kind="canary")
         entry = st.fork()
@@ -1626,7 +1685,7 @@ class Exec:
             oldv = self.view(entry, bound)
             newv = self.view(o.st, bound)
             if o.kind == "return":
-                if c.ret is not None and o.val is not None and not isinstance(c.ret, ty.RefT):
+                if c.ret is not None and (o.val is not None or isinstance(c.ret, ty.OptT)) and not isinstance(c.ret, ty.RefT):
                     o.val = self.coerce(c.ret, self.to_storable(o.val), fi.node)
                 for cl in c.ensures:
                     for tag, g in self.eval_clauses(cl.fn, oldv, newv, wrap(self, o.st, o.val)):
